@@ -29,6 +29,10 @@ pub struct TreeCfg {
     pub drop_doctype: bool,
     pub discard_bom: bool,
     pub dsd_allow: bool,
+    /// with dsd_allow: TreeSink::attach_declarative_shadow answers true (checks whose sink
+    /// models that; C02's reference does not and normalises it away)
+    #[serde(default)]
+    pub dsd_succeed: bool,
     #[serde(default)]
     pub profile: bool,
     /// fragment parsing through parse_fragment_for_element with a caller-created
@@ -49,6 +53,7 @@ impl Default for TreeCfg {
             drop_doctype: false,
             discard_bom: false,
             dsd_allow: false,
+            dsd_succeed: false,
             profile: false,
             form_ptr: false,
         }
